@@ -68,12 +68,14 @@ def inline_new_helpers(raw, vocabulary, strip_lt, log=None):
     edges = {}
     for p in new:
         es = set()
-        for blk in by_path[p]["blocks"]:
-            t = blk["term"]
-            if t["k"] == "call":
-                cp, fn = _callee_path(t, strip_lt)
-                if cp in new:
-                    es.add(cp)
+        own = [by_path[p]] + [b for q, b in by_path.items() if q.startswith(p + "::{closure")]  # its closures call for it
+        for ob in own:
+            for blk in ob["blocks"]:
+                t = blk["term"]
+                if t["k"] == "call":
+                    cp, fn = _callee_path(t, strip_lt)
+                    if cp in new:
+                        es.add(cp)
         edges[p] = es
     def reaches_self(p):
         seen, st = set(), list(edges[p])
@@ -401,6 +403,7 @@ ADAPTORS = {
     "std::iter::Iterator::find": "find",
     "std::iter::Iterator::position": "position",
     "std::iter::Iterator::for_each": "for_each",
+    "std::iter::Iterator::fold": "fold",
 }
 
 
@@ -473,122 +476,252 @@ def _local(ty, mut=True):
     return {"ty": ty, "name": None, "user": False, "mut": mut}
 
 
+def _unique_def(c, l):
+    defs = [st for b2 in c["blocks"] for st in b2["stmts"] if st["k"] == "assign" and st["place"]["l"] == l and not st["place"]["p"]]
+    calls = [(i, b2) for i, b2 in enumerate(c["blocks"]) if b2["term"]["k"] == "call" and b2["term"].get("dest") and b2["term"]["dest"]["l"] == l and not b2["term"]["dest"]["p"]]
+    return defs, calls
+
+
+def _uses(c, l):
+    """Occurrences of local l in statements and terminators (storage markers and drops aside)."""
+    s = json.dumps([[st for st in b2["stmts"] if st.get("k") not in ("live", "dead")] for b2 in c["blocks"]] + [b2["term"] for b2 in c["blocks"] if b2["term"]["k"] != "drop"])
+    return s.count('"l": %d,' % l) + s.count('"l": %d}' % l)
+
+
+class _Fun:
+    """A function value handed to an adaptor: a closure of the crate created in the caller (body spliced in) or a
+    function item (called)."""
+
+    def __init__(self, c, op, by_path, strip_lt, argc):
+        self.ok = False
+        self.c = c
+        self.kind = None
+        if op.get("k") == "const" and "fn" in op:
+            self.kind = "fn"
+            self.op = op
+            self.ok = True
+            self.ret_ty = None
+            return
+        if op.get("k") not in ("move", "copy") or op["place"]["p"]:
+            return
+        lc = op["place"]["l"]
+        sites = [(i, j) for i, b2 in enumerate(c["blocks"]) for j, st in enumerate(b2["stmts"]) if st["k"] == "assign" and st["place"]["l"] == lc and not st["place"]["p"]]
+        if len(sites) != 1:
+            return
+        self.site = sites[0]
+        agg = c["blocks"][sites[0][0]]["stmts"][sites[0][1]]["rv"]
+        if agg.get("k") != "agg" or agg.get("agg") != "closure":
+            return
+        self.cpath = strip_lt(agg["def"])
+        f = by_path.get(self.cpath)
+        if f is None or f.get("kind") != "Closure" or f["argc"] != argc + 1 or len(f["blocks"]) > MAX_BLOCKS:
+            return
+        if not strip_lt(f["locals"][1]["ty"]).startswith("&"):
+            return
+        if strip_lt(c["path"]) == self.cpath or json.dumps(agg["def"])[1:-1] in json.dumps(f["blocks"]):
+            return  # a closure that (after helper inlining) creates itself: splicing would never end
+        caps = []
+        for o in agg["fields"]:
+            if o.get("k") not in ("move", "copy") or o["place"]["p"]:
+                return
+            lk = o["place"]["l"]
+            defs, calls = _unique_def(c, lk)
+            ref = None
+            if len(defs) == 1 and not calls and defs[0]["rv"]["k"] == "ref" and not c["locals"][lk].get("user"):
+                ref = defs[0]["rv"]["place"]
+            caps.append((lk, ref))
+        self.kind, self.f, self.caps, self.lc = "closure", f, caps, lc
+        self.arg_tys = [l["ty"] for l in f["locals"][2:2 + argc]]
+        self.ret_ty = f["locals"][0]["ty"]
+        self.ok = True
+
+    def prepare(self):
+        """Removes the closure value from the block that creates it (its captured temporaries stay alive)."""
+        if self.kind != "closure":
+            return
+        c = self.c
+        bi, sj = self.site
+        blk = c["blocks"][bi]
+        cap_locals = {lk for lk, _ in self.caps}
+        blk["stmts"] = [st for j, st in enumerate(blk["stmts"]) if j != sj and not (st["k"] == "dead" and st.get("l") in cap_locals) and not (st["k"] in ("live", "dead") and st.get("l") == self.lc)]
+
+    def emit(self, args, dest, cont, line, unwind, cleanup, new_blocks, base):
+        """Appends blocks computing dest := f(args...) and continuing at `cont`; returns the entry block index.
+        `base` is the index the first appended block will get."""
+        c = self.c
+        if self.kind == "fn":
+            new_blocks.append({"stmts": [], "term": {"k": "call", "func": copy.deepcopy(self.op), "args": [{"k": "move", "place": {"l": a, "p": []}} for a in args], "dest": {"l": dest, "p": []}, "t": cont, "unwind": unwind, "line": line, "exp": False}, "cleanup": cleanup})
+            return base
+        f, caps = self.f, self.caps
+        L = c["locals"]
+        lo, po = len(L), len(c.get("promoted", []))
+        bo = base + 2
+        fb = _remap(copy.deepcopy(f["blocks"]), lo, bo, po)
+        env = lo + 1
+
+        def subst(pl):
+            if pl["l"] != env:
+                return None
+            p = pl["p"]
+            if len(p) < 2 or p[0] != "deref" or not isinstance(p[1], dict) or "i" not in p[1] or p[1]["i"] >= len(caps):
+                raise _Abort()
+            lk, ref = caps[p[1]["i"]]
+            rest = p[2:]
+            if ref is not None and rest and rest[0] == "deref":
+                return {"l": ref["l"], "p": copy.deepcopy(ref["p"]) + rest[1:]}
+            return {"l": lk, "p": rest}
+
+        _places(fb, subst)
+        for nb in fb:
+            nb["stmts"] = [st for st in nb["stmts"] if not (st["k"] in ("live", "dead") and st.get("l") == env)]
+        s = json.dumps(fb)
+        if ('"l": %d,' % env) in s or ('"l": %d}' % env) in s:
+            raise _Abort()
+        RET = base + 1
+        for nb in fb:
+            nt = nb["term"]
+            if nt["k"] == "return":
+                nb["term"] = {"k": "goto", "t": RET}
+            elif nt["k"] == "resume" and unwind is not None:
+                nb["term"] = {"k": "goto", "t": unwind}
+            if cleanup:
+                nb["cleanup"] = True
+        L.extend(copy.deepcopy(f["locals"]))
+        c.setdefault("promoted", []).extend(copy.deepcopy(f.get("promoted", [])))
+        entry = {"stmts": [{"k": "assign", "place": {"l": lo + 2 + k, "p": []}, "rv": {"k": "use", "op": {"k": "move", "place": {"l": a, "p": []}}}, "line": line, "exp": False} for k, a in enumerate(args)], "term": {"k": "goto", "t": bo}, "cleanup": cleanup}
+        ret = {"stmts": [{"k": "assign", "place": {"l": dest, "p": []}, "rv": {"k": "use", "op": {"k": "move", "place": {"l": lo, "p": []}}}, "line": line, "exp": False}], "term": {"k": "goto", "t": cont}, "cleanup": cleanup}
+        new_blocks.append(entry)
+        new_blocks.append(ret)
+        new_blocks.extend(fb)
+        return base
+
+
+def _item_ty_of(iter_ty, fallback):
+    return fallback
+
+
 def _desugar_one(c, bi, kind, fn, by_path, strip_lt):
     blk = c["blocks"][bi]
     t = blk["term"]
-    a_it, a_cl = t["args"]
-    if a_cl.get("k") not in ("move", "copy") or a_cl["place"]["p"] or a_it.get("k") not in ("move", "copy"):
+    args = t["args"]
+    a_it = args[0]
+    if a_it.get("k") not in ("move", "copy"):
         return None
-    lc = a_cl["place"]["l"]
-    sites = [(i, j) for i, b2 in enumerate(c["blocks"]) for j, st in enumerate(b2["stmts"]) if st["k"] == "assign" and st["place"]["l"] == lc and not st["place"]["p"]]
-    if len(sites) != 1 or sites[0][0] != bi:
+    nfun_args = {"all": 1, "any": 1, "find": 1, "position": 1, "for_each": 1, "fold": 2}[kind]
+    fun = _Fun(c, args[-1], by_path, strip_lt, nfun_args)
+    if not fun.ok:
         return None
-    sj = sites[0][1]
-    agg = blk["stmts"][sj]["rv"]
-    if agg.get("k") != "agg" or agg.get("agg") != "closure":
+    if fun.kind == "closure" and fun.site[0] != bi:
         return None
-    cpath = strip_lt(agg["def"])
-    f = by_path.get(cpath)
-    if f is None or f.get("kind") != "Closure" or f["argc"] != 2 or len(f["blocks"]) > MAX_BLOCKS:
+    snapshot = (copy.deepcopy(c["blocks"]), copy.deepcopy(c["locals"]), copy.deepcopy(c.get("promoted", [])))
+    try:
+        return _desugar_build(c, bi, kind, fn, fun, by_path, strip_lt)
+    except _Abort:
+        c["blocks"], c["locals"] = snapshot[0], snapshot[1]
+        c["promoted"] = snapshot[2]
         return None
-    if not strip_lt(f["locals"][1]["ty"]).startswith("&"):
-        return None
-    caps = []
-    for op in agg["fields"]:
-        if op.get("k") not in ("move", "copy") or op["place"]["p"]:
-            return None
-        lk = op["place"]["l"]
-        defs = [st for b2 in c["blocks"] for st in b2["stmts"] if st["k"] == "assign" and st["place"]["l"] == lk and not st["place"]["p"]]
-        ref = None
-        if len(defs) == 1 and defs[0]["rv"]["k"] == "ref" and not c["locals"][lk].get("user"):
-            ref = defs[0]["rv"]["place"]
-        caps.append((lk, ref))
+
+
+def _desugar_build(c, bi, kind, fn, fun, by_path, strip_lt):
+    blk = c["blocks"][bi]
+    t = blk["term"]
+    args = t["args"]
+    a_it = args[0]
+    line = t.get("line")
+    cleanup = blk.get("cleanup", False)
+    unwind = t.get("unwind")
     iter_ty = (fn.get("targs") or ["?"])[0]
-    arg_ty = f["locals"][2]["ty"]
-    item_ty = arg_ty[1:] if kind == "find" and arg_ty.startswith("&") else arg_ty
-    if kind == "find" and not arg_ty.startswith("&"):
-        return None
-    by_ref = kind != "for_each"
+    by_ref = kind in ("all", "any", "find", "position")
     it_place = copy.deepcopy(a_it["place"])
-    move_from = None  # the iterator value is moved into a local of its own, as `for` does with into_iter's result
+    src_local = None  # the local that holds the iterator value itself
     if by_ref:
         it_place = {"l": it_place["l"], "p": list(it_place["p"]) + ["deref"]}
         if not a_it["place"]["p"]:
-            la = a_it["place"]["l"]
-            defs = [st for b2 in c["blocks"] for st in b2["stmts"] if st["k"] == "assign" and st["place"]["l"] == la and not st["place"]["p"]]
-            if len(defs) == 1 and defs[0]["rv"]["k"] == "ref" and defs[0]["rv"].get("mut") and not defs[0]["rv"]["place"]["p"]:
-                src = defs[0]["rv"]["place"]["l"]
-                uses = json.dumps([[st for st in b2["stmts"] if st.get("k") not in ("live", "dead")] for b2 in c["blocks"]] + [b2["term"] for b2 in c["blocks"]]).count('"l": %d' % src)
-                if not c["locals"][src].get("user") and uses <= 2:  # its definition and this borrow
-                    move_from = {"l": src, "p": []}
+            defs, calls = _unique_def(c, a_it["place"]["l"])
+            if len(defs) == 1 and not calls and defs[0]["rv"]["k"] == "ref" and defs[0]["rv"].get("mut") and not defs[0]["rv"]["place"]["p"]:
+                s = defs[0]["rv"]["place"]["l"]
+                if not c["locals"][s].get("user") and _uses(c, s) <= 2:
+                    src_local = s
     elif not a_it["place"]["p"]:
-        move_from = copy.deepcopy(a_it["place"])
-    line = t.get("line")
-    # new locals of the caller
+        src_local = a_it["place"]["l"]
+    # a `.map(f)` stage directly in front of the adaptor: the loop runs over the inner iterator and applies f
+    map_fun = None
+    if src_local is not None:
+        defs, calls = _unique_def(c, src_local)
+        if not defs and len(calls) == 1:
+            mi, mblk = calls[0]
+            mt = mblk["term"]
+            mf = mt.get("func", {}).get("fn") if mt.get("func", {}).get("k") == "const" else None
+            if mf and mf.get("def") == "std::iter::Iterator::map" and len(mt["args"]) == 2 and mt["args"][0].get("k") in ("move", "copy") and not mt["args"][0]["place"]["p"] and not mblk.get("cleanup") and mi != bi:
+                mfun = _Fun(c, mt["args"][1], by_path, strip_lt, 1)
+                if mfun.ok and (mfun.kind == "fn" or mfun.site[0] == mi) and (by_ref or _uses(c, src_local) <= 2):
+                    map_fun = (mi, mfun, mt["args"][0]["place"]["l"], (mf.get("targs") or [None])[0])
     L = c["locals"]
+    if fun.kind == "closure":
+        pred_arg_ty = fun.arg_tys[-1]
+    else:
+        pred_arg_ty = None
+    # item type (after the map stage, if any)
+    if kind == "find":
+        if pred_arg_ty is None or not pred_arg_ty.startswith("&"):
+            raise _Abort()
+        item_ty = pred_arg_ty[1:]
+    elif pred_arg_ty is not None:
+        item_ty = pred_arg_ty
+    else:
+        item_ty = "?"
+    inner_item_ty = item_ty
+    if map_fun is not None:
+        mi, mfun, inner_local, inner_ty = map_fun
+        inner_item_ty = mfun.arg_tys[0] if mfun.kind == "closure" else "?"
+        iter_ty = inner_ty or c["locals"][inner_local]["ty"]
     base = len(L)
     r_iter, opt, disc, item = base, base + 1, base + 2, base + 3
-    L.extend([_local("&mut " + iter_ty), _local("std::option::Option<%s>" % item_ty), _local("isize"), _local(item_ty)])
-    item_ref = idx = None
+    L.extend([_local("&mut " + iter_ty), _local("std::option::Option<%s>" % inner_item_ty), _local("isize"), _local(item_ty)])
+    item0 = item
+    if map_fun is not None:
+        item0 = len(L)
+        L.append(_local(inner_item_ty))
+    item_ref = idx = acc = ret = None
     if kind == "find":
         item_ref = len(L)
         L.append(_local("&" + item_ty))
     if kind == "position":
         idx = len(L)
         L.append(_local("usize"))
-    if move_from is not None:
+    if kind == "fold":
+        acc = len(L)
+        L.append(_local(c["locals"][t["dest"]["l"]]["ty"] if not t["dest"]["p"] else "?"))
+    ret = len(L)
+    L.append(_local("()" if kind == "for_each" else (c["locals"][t["dest"]["l"]]["ty"] if kind == "fold" and not t["dest"]["p"] else "bool")))
+    iterv = None
+    move_from = None
+    if map_fun is not None:
+        # the map call goes away: its receiver is the iterator of the loop
+        mi, mfun, inner_local, inner_ty = map_fun
+        mblk = c["blocks"][mi]
+        mfun.prepare()
         iterv = len(L)
         L.append(_local(iter_ty))
+        mblk["stmts"].append({"k": "assign", "place": {"l": iterv, "p": []}, "rv": {"k": "use", "op": {"k": "move", "place": {"l": inner_local, "p": []}}}, "line": line, "exp": False})
+        mblk["term"] = {"k": "goto", "t": mblk["term"]["t"]}
         it_place = {"l": iterv, "p": []}
-    lo, po = len(L), len(c.get("promoted", []))
-    n0 = len(c["blocks"])
-    H, D, U, SOME, NONE, RET, EXIT, INC = n0, n0 + 1, n0 + 2, n0 + 3, n0 + 4, n0 + 5, n0 + 6, n0 + 7
-    bo = n0 + 8
-    fb = _remap(copy.deepcopy(f["blocks"]), lo, bo, po)
-    env = lo + 1
-
-    def subst(pl):
-        if pl["l"] != env:
-            return None
-        p = pl["p"]
-        if len(p) < 2 or p[0] != "deref" or not isinstance(p[1], dict) or "i" not in p[1] or p[1]["i"] >= len(caps):
-            raise _Abort()
-        lk, ref = caps[p[1]["i"]]
-        rest = p[2:]
-        if ref is not None and rest and rest[0] == "deref":
-            return {"l": ref["l"], "p": copy.deepcopy(ref["p"]) + rest[1:]}
-        return {"l": lk, "p": rest}
-
-    try:
-        _places(fb, subst)
-    except _Abort:
-        del L[base:]
-        return None
-    # any remaining mention of the environment local (live/dead markers aside) means we did not understand it
-    for nb in fb:
-        nb["stmts"] = [st for st in nb["stmts"] if not (st["k"] in ("live", "dead") and st.get("l") == env)]
-    if ('"l": %d,' % env) in json.dumps(fb) or ('"l": %d}' % env) in json.dumps(fb):
-        del L[base:]
-        return None
-    cleanup = blk.get("cleanup", False)
-    for nb in fb:
-        nt = nb["term"]
-        if nt["k"] == "return":
-            nb["term"] = {"k": "goto", "t": RET}
-        elif nt["k"] == "resume":
-            if t.get("unwind") is not None:
-                nb["term"] = {"k": "goto", "t": t["unwind"]}
-    L.extend(copy.deepcopy(f["locals"]))
-    c.setdefault("promoted", []).extend(copy.deepcopy(f.get("promoted", [])))
-    ret = lo
-    # the creating block: drop the closure value and the markers that would end the captured temporaries
-    cap_locals = {lk for lk, _ in caps}
-    blk["stmts"] = [st for j, st in enumerate(blk["stmts"]) if j != sj and not (st["k"] == "dead" and st.get("l") in cap_locals) and not (st["k"] in ("live", "dead") and st.get("l") == lc)]
+    elif src_local is not None:
+        iterv = len(L)
+        L.append(_local(iter_ty))
+        move_from = {"l": src_local, "p": []}
+        it_place = {"l": iterv, "p": []}
+    fun.prepare()
+    blk = c["blocks"][bi]
     if kind == "position":
         blk["stmts"].append({"k": "assign", "place": {"l": idx, "p": []}, "rv": {"k": "use", "op": {"k": "const", "ty": "usize", "int": 0}}, "line": line, "exp": False})
+    if kind == "fold":
+        blk["stmts"].append({"k": "assign", "place": {"l": acc, "p": []}, "rv": {"k": "use", "op": copy.deepcopy(args[1])}, "line": line, "exp": False})
     if move_from is not None:
-        blk["stmts"].append({"k": "assign", "place": {"l": it_place["l"], "p": []}, "rv": {"k": "use", "op": {"k": "move", "place": move_from}}, "line": line, "exp": False})
+        blk["stmts"].append({"k": "assign", "place": {"l": iterv, "p": []}, "rv": {"k": "use", "op": {"k": "move", "place": move_from}}, "line": line, "exp": False})
     dest, after = t["dest"], t["t"]
+    n0 = len(c["blocks"])
+    H, D, U, SOME, NONE, RET, EXIT, INC = n0, n0 + 1, n0 + 2, n0 + 3, n0 + 4, n0 + 5, n0 + 6, n0 + 7
     blk["term"] = {"k": "goto", "t": H}
 
     def assign(place, rv):
@@ -597,25 +730,22 @@ def _desugar_one(c, bi, kind, fn, by_path, strip_lt):
     next_fn = {"def": "std::iter::Iterator::next", "inst": "<%s as std::iter::Iterator>::next" % iter_ty, "targs": [iter_ty], "local": False, "trait": "std::iter::Iterator", "res_local": False, "res_kind": "item"}
     next_fn["res"] = _next_impl_path(iter_ty)
     next_fn["res_inst"] = next_fn["inst"]
-    some_payload = {"l": opt, "p": [{"downcast": "Some", "v": 1}, {"f": "0", "i": 0, "adt": "std::option::Option", "ty": item_ty}]}
+    some_payload = {"l": opt, "p": [{"downcast": "Some", "v": 1}, {"f": "0", "i": 0, "adt": "std::option::Option", "ty": inner_item_ty}]}
     opt_some = lambda op: {"k": "agg", "agg": "adt", "adt": "std::option::Option", "variant": "Some", "vidx": 1, "fnames": ["0"], "fields": [op]}
     opt_none = {"k": "agg", "agg": "adt", "adt": "std::option::Option", "variant": "None", "vidx": 0, "fnames": [], "fields": []}
+    unit = {"k": "use", "op": {"k": "const", "ty": "()", "zst": True}}
     new = []
     new.append({"stmts": [assign({"l": r_iter, "p": []}, {"k": "ref", "mut": True, "place": it_place})],
-                "term": {"k": "call", "func": {"k": "const", "ty": "fn(&mut %s) -> std::option::Option<%s> {<%s as std::iter::Iterator>::next}" % (iter_ty, item_ty, iter_ty), "fn": next_fn}, "args": [{"k": "move", "place": {"l": r_iter, "p": []}}], "dest": {"l": opt, "p": []}, "t": D, "unwind": t.get("unwind"), "line": line, "exp": False},
+                "term": {"k": "call", "func": {"k": "const", "ty": "fn(&mut %s) -> std::option::Option<%s> {<%s as std::iter::Iterator>::next}" % (iter_ty, inner_item_ty, iter_ty), "fn": next_fn}, "args": [{"k": "move", "place": {"l": r_iter, "p": []}}], "dest": {"l": opt, "p": []}, "t": D, "unwind": unwind, "line": line, "exp": False},
                 "cleanup": cleanup})
-    new.append({"stmts": [assign({"l": disc, "p": []}, {"k": "discr", "place": {"l": opt, "p": []}, "ty": "std::option::Option<%s>" % item_ty, "variants": [[0, "None"], [1, "Some"]]})],
+    new.append({"stmts": [assign({"l": disc, "p": []}, {"k": "discr", "place": {"l": opt, "p": []}, "ty": "std::option::Option<%s>" % inner_item_ty, "variants": [[0, "None"], [1, "Some"]]})],
                 "term": {"k": "switch", "op": {"k": "move", "place": {"l": disc, "p": []}}, "ty": "isize", "targets": [[0, NONE], [1, SOME]], "otherwise": U, "line": line, "exp": False},
                 "cleanup": cleanup})
     new.append({"stmts": [], "term": {"k": "unreachable"}, "cleanup": cleanup})
-    some_stmts = [assign({"l": item, "p": []}, {"k": "use", "op": {"k": "move", "place": some_payload}})]
-    if kind == "find":
-        some_stmts.append(assign({"l": item_ref, "p": []}, {"k": "ref", "mut": False, "place": {"l": item, "p": []}}))
-        some_stmts.append(assign({"l": lo + 2, "p": []}, {"k": "use", "op": {"k": "move", "place": {"l": item_ref, "p": []}}}))
-    else:
-        some_stmts.append(assign({"l": lo + 2, "p": []}, {"k": "use", "op": {"k": "move", "place": {"l": item, "p": []}}}))
-    new.append({"stmts": some_stmts, "term": {"k": "goto", "t": bo}, "cleanup": cleanup})
-    none_val = {"all": {"k": "use", "op": _bool_const(True)}, "any": {"k": "use", "op": _bool_const(False)}, "find": opt_none, "position": opt_none, "for_each": {"k": "use", "op": {"k": "const", "ty": "()", "zst": True}}}[kind]
+    # SOME: the item, mapped if there is a map stage, then the function of the adaptor
+    some_blk = {"stmts": [assign({"l": item0, "p": []}, {"k": "use", "op": {"k": "move", "place": some_payload}})], "term": None, "cleanup": cleanup}
+    new.append(some_blk)
+    none_val = {"all": {"k": "use", "op": _bool_const(True)}, "any": {"k": "use", "op": _bool_const(False)}, "find": opt_none, "position": opt_none, "for_each": unit, "fold": {"k": "use", "op": {"k": "move", "place": {"l": acc if acc is not None else 0, "p": []}}}}[kind]
     new.append({"stmts": [assign(copy.deepcopy(dest), none_val)], "term": {"k": "goto", "t": after}, "cleanup": cleanup})
     sw = lambda zero, other: {"k": "switch", "op": {"k": "move", "place": {"l": ret, "p": []}}, "ty": "bool", "targets": [[0, zero]], "otherwise": other, "line": line, "exp": False}
     if kind == "all":
@@ -630,21 +760,87 @@ def _desugar_one(c, bi, kind, fn, by_path, strip_lt):
     elif kind == "position":
         new.append({"stmts": [], "term": sw(INC, EXIT), "cleanup": cleanup})
         exit_val = opt_some({"k": "copy", "place": {"l": idx, "p": []}})
+    elif kind == "fold":
+        new.append({"stmts": [assign({"l": acc, "p": []}, {"k": "use", "op": {"k": "move", "place": {"l": ret, "p": []}}})], "term": {"k": "goto", "t": H}, "cleanup": cleanup})
+        exit_val = unit
     else:
         new.append({"stmts": [], "term": {"k": "goto", "t": H}, "cleanup": cleanup})
-        exit_val = {"k": "use", "op": {"k": "const", "ty": "()", "zst": True}}
-    new.append({"stmts": [assign(copy.deepcopy(dest), exit_val)], "term": {"k": "goto", "t": after}, "cleanup": cleanup})
+        exit_val = unit
+    new.append({"stmts": [assign(copy.deepcopy(dest), exit_val)] if kind not in ("fold", "for_each") else [], "term": {"k": "goto", "t": after}, "cleanup": cleanup})
     inc_stmts = []
     if kind == "position":
         inc_stmts.append(assign({"l": idx, "p": []}, {"k": "bin", "op": "Add", "a": {"k": "copy", "place": {"l": idx, "p": []}}, "b": {"k": "const", "ty": "usize", "int": 1}}))
     new.append({"stmts": inc_stmts, "term": {"k": "goto", "t": H}, "cleanup": cleanup})
     assert len(new) == 8
-    for nb in fb:
-        if cleanup:
-            nb["cleanup"] = True
+    # the function stages, appended after the fixed blocks
+    nxt = n0 + 8
+    if kind == "find":
+        pred_args_prep = [assign({"l": item_ref, "p": []}, {"k": "ref", "mut": False, "place": {"l": item, "p": []}})]
+        pred_args = [item_ref]
+    elif kind == "fold":
+        pred_args_prep = []
+        pred_args = [acc, item]
+    else:
+        pred_args_prep = []
+        pred_args = [item]
+    extra = []
+    pred_entry = fun.emit(pred_args, ret, RET, line, unwind, cleanup, extra, nxt)
+    if pred_args_prep:
+        extra.append({"stmts": pred_args_prep, "term": {"k": "goto", "t": pred_entry}, "cleanup": cleanup})
+        pred_entry = nxt + len(extra) - 1
+    if map_fun is not None:
+        mi, mfun, inner_local, inner_ty = map_fun
+        map_entry = mfun.emit([item0], item, pred_entry, line, unwind, cleanup, extra, nxt + len(extra))
+        some_blk["term"] = {"k": "goto", "t": map_entry}
+    else:
+        some_blk["term"] = {"k": "goto", "t": pred_entry}
     c["blocks"].extend(new)
-    c["blocks"].extend(fb)
-    return cpath
+    c["blocks"].extend(extra)
+    out = [fun.cpath] if fun.kind == "closure" else []
+    if map_fun is not None and map_fun[1].kind == "closure":
+        out.append(map_fun[1].cpath)
+    return out or ["<fn>"]
+
+
+def _desugar_option_fn(c, bi, name, fn, strip_lt):
+    """`x.and_then(F)` / `x.map(F)` with a function item F: the match they abbreviate, F called on the payload."""
+    blk = c["blocks"][bi]
+    t = blk["term"]
+    x, f = t["args"]
+    if x.get("k") not in ("move", "copy") or f.get("k") != "const" or "fn" not in f or t["dest"]["p"]:
+        return False
+    line, cleanup, unwind = t.get("line"), blk.get("cleanup", False), t.get("unwind")
+    L = c["locals"]
+    opt_ty = L[x["place"]["l"]]["ty"] if not x["place"]["p"] else "std::option::Option<?>"
+    m = None
+    import re as _re
+    m = _re.match(r"^std::option::Option<(.*)>$", opt_ty)
+    pay_ty = m.group(1) if m else "?"
+    disc, pay, tmp = len(L), len(L) + 1, len(L) + 2
+    dest_ty = L[t["dest"]["l"]]["ty"]
+    md = _re.match(r"^std::option::Option<(.*)>$", dest_ty)
+    L.extend([_local("isize"), _local(pay_ty), _local(md.group(1) if (md and name == "map") else dest_ty)])
+    n0 = len(c["blocks"])
+    D, U, SOME, NONE, WRAP = n0, n0 + 1, n0 + 2, n0 + 3, n0 + 4
+    xp = x["place"]
+
+    def assign(place, rv):
+        return {"k": "assign", "place": place, "rv": rv, "line": line, "exp": False}
+
+    after, dest = t["t"], t["dest"]
+    blk["term"] = {"k": "goto", "t": D}
+    new = []
+    new.append({"stmts": [assign({"l": disc, "p": []}, {"k": "discr", "place": copy.deepcopy(xp), "ty": opt_ty, "variants": [[0, "None"], [1, "Some"]]})],
+                "term": {"k": "switch", "op": {"k": "move", "place": {"l": disc, "p": []}}, "ty": "isize", "targets": [[0, NONE], [1, SOME]], "otherwise": U, "line": line, "exp": False}, "cleanup": cleanup})
+    new.append({"stmts": [], "term": {"k": "unreachable"}, "cleanup": cleanup})
+    payload = {"l": xp["l"], "p": list(xp["p"]) + [{"downcast": "Some", "v": 1}, {"f": "0", "i": 0, "adt": "std::option::Option", "ty": pay_ty}]}
+    call_dest = {"l": tmp, "p": []} if name == "map" else copy.deepcopy(dest)
+    new.append({"stmts": [assign({"l": pay, "p": []}, {"k": "use", "op": {"k": "move", "place": payload}})],
+                "term": {"k": "call", "func": copy.deepcopy(f), "args": [{"k": "move", "place": {"l": pay, "p": []}}], "dest": call_dest, "t": WRAP if name == "map" else after, "unwind": unwind, "line": line, "exp": False}, "cleanup": cleanup})
+    new.append({"stmts": [assign(copy.deepcopy(dest), {"k": "agg", "agg": "adt", "adt": "std::option::Option", "variant": "None", "vidx": 0, "fnames": [], "fields": []})], "term": {"k": "goto", "t": after}, "cleanup": cleanup})
+    new.append({"stmts": [assign(copy.deepcopy(dest), {"k": "agg", "agg": "adt", "adt": "std::option::Option", "variant": "Some", "vidx": 1, "fnames": ["0"], "fields": [{"k": "move", "place": {"l": tmp, "p": []}}]})], "term": {"k": "goto", "t": after}, "cleanup": cleanup})
+    c["blocks"].extend(new)
+    return True
 
 
 def desugar_iterator_adaptors(raw, strip_lt, log=None):
@@ -660,23 +856,30 @@ def desugar_iterator_adaptors(raw, strip_lt, log=None):
     for c in bodies:
         bi = 0
         keep = reference.get(strip_lt(c["path"]).split("::{closure")[0], {})
-        while bi < len(c["blocks"]) and len(c["blocks"]) < 4000:
+        budget = 60
+        while bi < len(c["blocks"]) and len(c["blocks"]) < 4000 and budget > 0:
             blk = c["blocks"][bi]
             t = blk["term"]
             if t["k"] == "call" and not blk.get("cleanup"):
                 f = t.get("func", {})
                 fn = f.get("fn") if f.get("k") == "const" else None
-                kind = ADAPTORS.get(fn.get("def")) if fn else None
-                if kind and not keep.get(kind) and len(t.get("args", [])) == 2 and t.get("t") is not None and t.get("dest") is not None:
+                d = fn.get("def") if fn else None
+                kind = ADAPTORS.get(d) if fn else None
+                nargs = 3 if kind == "fold" else 2
+                if kind and not keep.get(kind) and len(t.get("args", [])) == nargs and t.get("t") is not None and t.get("dest") is not None:
                     cp = _desugar_one(c, bi, kind, fn, by_path, strip_lt)
                     if cp:
-                        done.append((strip_lt(c["path"]), kind, cp))
+                        budget -= 1
+                        for x in cp:
+                            done.append((strip_lt(c["path"]), kind, x))
+                elif d in ("std::option::Option::<T>::and_then", "std::option::Option::<T>::map") and not keep.get("option_fn") and len(t.get("args", [])) == 2 and t.get("t") is not None:
+                    if _desugar_option_fn(c, bi, d.split("::")[-1], fn, strip_lt):
+                        done.append((strip_lt(c["path"]), "option_" + d.split("::")[-1], "<fn>"))
             bi += 1
     if done:
         # closure bodies that no aggregate creates any more are gone from the program
         s = json.dumps([b["blocks"] for b in bodies])
-        gone = {d[2] for d in done if json.dumps(d[2])[1:-1] not in s}
-        # (the path may still occur in type strings `{closure@file:line}`; those do not contain the def path)
+        gone = {d[2] for d in done if d[2] != "<fn>" and json.dumps(d[2])[1:-1] not in s}
         raw["bodies"] = [b for b in bodies if strip_lt(b["path"]) not in gone and not any(strip_lt(b["path"]).startswith(g + "::") for g in gone)]
     if log and done:
         log("desugared %d iterator adaptor call(s)" % len(done))
